@@ -446,6 +446,37 @@ func expandStack(stack []any, mi int) []any {
 	return nstack
 }
 
+// equalValues reports whether left and right are the same value. Numbers are
+// compared by value across int64 and float64. Slices, maps and other types that
+// can not be compared with == are never equal.
+func equalValues(left, right any) bool {
+	switch tl := left.(type) {
+	case int64:
+		switch tr := right.(type) {
+		case int64:
+			return tl == tr
+		case float64:
+			return float64(tl) == tr
+		}
+		return false
+	case float64:
+		switch tr := right.(type) {
+		case int64:
+			return tl == float64(tr)
+		case float64:
+			return tl == tr
+		}
+		return false
+	}
+	if left == nil || right == nil {
+		return left == right
+	}
+	if !reflect.TypeOf(left).Comparable() || !reflect.TypeOf(right).Comparable() {
+		return false
+	}
+	return left == right
+}
+
 func evalStack(sstack []any) []any {
 	for i := len(sstack) - 1; 0 <= i; i-- {
 		o, _ := sstack[i].(*op)
@@ -467,35 +498,9 @@ func evalStack(sstack []any) []any {
 		case group.code:
 			sstack[i] = left
 		case eq.code:
-			if left == right {
-				sstack[i] = true
-			} else {
-				sstack[i] = false
-				switch tl := left.(type) {
-				case int64:
-					if tr, ok := right.(float64); ok {
-						sstack[i] = ok && float64(tl) == tr
-					}
-				case float64:
-					tr, ok := right.(int64)
-					sstack[i] = ok && tl == float64(tr)
-				}
-			}
+			sstack[i] = equalValues(left, right)
 		case neq.code:
-			if left == right {
-				sstack[i] = false
-			} else {
-				sstack[i] = true
-				switch tl := left.(type) {
-				case int64:
-					if tr, ok := right.(float64); ok {
-						sstack[i] = ok && float64(tl) != tr
-					}
-				case float64:
-					tr, ok := right.(int64)
-					sstack[i] = ok && tl != float64(tr)
-				}
-			}
+			sstack[i] = !equalValues(left, right)
 		case lt.code:
 			sstack[i] = false
 			switch tl := left.(type) {
